@@ -302,6 +302,10 @@ func (e *Env) atom(a string) string {
 	}
 	if _, ok := e.vars[root]; ok {
 		v := e.pathVal(a)
+		if p, ok := v.(Ptr); ok && p.Loc != nil {
+			// a pointer to a scalar denotes the scalar
+			v = e.s.load(e.cur, p)
+		}
 		switch s := v.(type) {
 		case Sc:
 			return s.T
@@ -377,13 +381,18 @@ func (e *Env) pathVal(p string) Val {
 			// auto-deref pointers
 			for {
 				if pt, ok := v.(Ptr); ok {
-					if pt.Loc == nil {
-						e.errf("path %s dereferences a nil pointer", p)
-					}
-					v = e.s.load(e.cur, pt)
 					if t != nil {
 						t = t.Underlying().(*types.Pointer).Elem()
 					}
+					if pt.Loc == nil {
+						// dereference of a definitely-nil pointer: an undefined (arbitrary) value
+						if t == nil {
+							e.errf("path %s dereferences a nil pointer", p)
+						}
+						v = e.s.symVal(e.s.fresh("undef:"+p), t)
+						continue
+					}
+					v = e.s.load(e.cur, pt)
 					continue
 				}
 				break
@@ -436,7 +445,13 @@ func (e *Env) pathVal(p string) Val {
 			switch s := v.(type) {
 			case Slice:
 				if s.Arr == nil {
-					e.errf("path %s indexes a nil slice", p)
+					// index into a nil slice: an undefined (arbitrary) value
+					if t == nil {
+						e.errf("path %s indexes a nil slice", p)
+					}
+					t = t.Underlying().(*types.Slice).Elem()
+					v = e.s.symVal(e.s.fresh("undef:"+p), t)
+					continue
 				}
 				v = e.s.arrRead(e.cur, s.Arr, addTerm(s.Off, idx))
 				t = s.Arr.Elem
